@@ -3,8 +3,10 @@ package props
 import (
 	"bytes"
 	"crypto/tls"
+	"errors"
 	"fmt"
 	"hash/fnv"
+	"io"
 	"sync"
 	"sync/atomic"
 	"testing"
@@ -88,6 +90,9 @@ type c08Scenario struct {
 	// the held handler has asked for CloseNotify, and the peer closes (EOF behind the burst that is
 	// already buffered) while it is blocked: the following handlers still wait for it
 	eofWhileHeld bool
+	// the held handler blocks inside Parser.Load of the connection's dictionary, on a source
+	// that stays silent and then fails (an operator dictionary fetched on demand)
+	loadWhileHeld bool
 }
 
 // c08Body: body size of message s on connection i (below, at and above the 1 KiB pooled read buffer)
@@ -142,7 +147,16 @@ func runC08(c *ev.Case, ctx *lib.Ctx, sc c08Scenario) {
 					_ = dc.(diam.CloseNotifier).CloseNotify()
 				}
 				held <- struct{}{}
-				<-release
+				if sc.loadWhileHeld {
+					pr, pw := io.Pipe()
+					go func() {
+						<-release
+						pw.CloseWithError(errors.New("verif: the dictionary source went away"))
+					}()
+					ctx.Parser.Load(pr) // fails before anything is defined
+				} else {
+					<-release
+				}
 			}
 		case 3:
 			if seq == 1 {
@@ -846,9 +860,13 @@ func TestC08(t *testing.T) {
 		if sc.handler == 2 && sc.pattern == 0 && !sc.regWhileHeld && r.IntN(2) == 0 {
 			sc.eofWhileHeld = true
 		}
+		if sc.handler == 2 && !sc.regWhileHeld && !sc.eofWhileHeld && sc.K > 1 && r.IntN(2) == 0 {
+			sc.loadWhileHeld = true
+		}
 		if r.IntN(6) == 0 {
 			sc.eofWhileHeld = false
 			sc.regWhileHeld = false
+			sc.loadWhileHeld = false
 			sc.sctp, sc.dialled, sc.prelude = true, true, 0
 			if sc.pattern == 1 {
 				sc.pattern = 0
@@ -865,6 +883,9 @@ func TestC08(t *testing.T) {
 		c.Class("K=%d/dialled=%v/pattern=%d/handler=%d/mux=%v/long=%v/prelude=%d/sctp=%v", sc.K, sc.dialled, sc.pattern, sc.handler, sc.mux, long, sc.prelude, sc.sctp)
 		if sc.regWhileHeld {
 			c.Class("registration-while-a-handler-is-blocked/dialled=%v", sc.dialled)
+		}
+		if sc.loadWhileHeld {
+			c.Class("handler-blocked-in-dictionary-load/dialled=%v", sc.dialled)
 		}
 		if sc.eofWhileHeld {
 			c.Class("peer-closes-while-a-handler-that-asked-for-closenotify-is-blocked/dialled=%v", sc.dialled)
